@@ -60,7 +60,7 @@ class InjMarkedM(yaml.MarkedYAMLError):                # ... carrying marks of i
 
 
 INJ_CLASSES = [Inj, InjYaml, InjOS, InjValue, InjType, InjAttr, InjLookup, InjMarked, InjBase, InjCtor, InjRepr, InjMarkedM]
-CALLBACK_CLASSES = [0, 1, 7, 9, 10, 11]     # what a user constructor / representer is run with, each of them per invocation
+CALLBACK_CLASSES = [0, 1, 6, 7, 9, 10, 11]  # (6 = a KeyError subclass: what EAFP-style dispatch code would swallow) what a user constructor / representer is run with, each of them per invocation
 
 
 def make_injected(icls, i, k=0):
